@@ -24,7 +24,11 @@ f_addE = z3.Function('add_E', Pt, Pt, Pt)
 f_addEp = z3.Function('add_Eiso', Pt, Pt, Pt)
 
 
-def euf_models(proj, sites):
+f_dblE = z3.Function('double_E', Pt, Pt)
+f_dblEp = z3.Function('double_Eiso', Pt, Pt)
+
+
+def euf_models(proj, sites, base=None):
     P = proj
 
     def h_sswu(ex, st, m, a):
@@ -50,15 +54,40 @@ def euf_models(proj, sites):
         if p.tag != q.tag:
             sites.append(('add_assign with operands on different curves', p, q))
         f = f_addE if p.tag == 'E' else f_addEp
-        sites.append(('add', p.tag, p.c[0], q.c[0]))
+        sites.append(('add', p.tag, p.c[0], q.c[0], list(st.pc)))
         ex.store(st, a[0], GE(P, [f(p.c[0], q.c[0])], p.tag))
         return UNIT
+
+    def h_dbl(ex, st, m, a):
+        p = deref(ex, st, a[0])
+        f = f_dblE if p.tag == 'E' else f_dblEp
+        sites.append(('double', p.tag, p.c[0], p.c[0], list(st.pc)))
+        ex.store(st, a[0], GE(P, [f(p.c[0])], p.tag))
+        return UNIT
+
+    def h_eq(ex, st, m, a):
+        x, y = deref(ex, st, a[0]), deref(ex, st, a[1])
+        while isinstance(x, Ref):
+            x = deref(ex, st, x)
+        while isinstance(y, Ref):
+            y = deref(ex, st, y)
+        if isinstance(x, GE) and isinstance(y, GE):
+            return x.c[0] == y.c[0]
+        return NotImplemented
+
+    def h_ne(ex, st, m, a):
+        r = h_eq(ex, st, m, a)
+        return r if r is NotImplemented else z3.Not(r)
     pp = P.replace('::', r'::')
+    bb = (base or 'NOBASE').replace('::', r'::')
     return [
         (r'<' + pp + r' as (?:bls12_381::)?(?:osswu_map::)?OSSWUMap>::osswu_map', h_sswu),
         (r'<' + pp + r' as (?:bls12_381::)?(?:isogeny::)?IsogenyMap>::isogeny_map', h_iso),
         (r'<' + pp + r' as (?:bls12_381::)?(?:cofactor::)?ClearH>::clear_h', h_clr),
         (r'<' + pp + r' as CurveProjective>::add_assign', h_add),
+        (r'<' + pp + r' as CurveProjective>::double', h_dbl),
+        (r'<(?:&)?' + bb + r' as PartialEq(?:<.+>)?>::eq', h_eq),
+        (r'<(?:&)?' + bb + r' as PartialEq(?:<.+>)?>::ne', h_ne),
     ]
 
 
@@ -81,7 +110,7 @@ def run(ctx):
     findings = []
     for gname, proj, base, leaf in [('G1', 'ec::g1::G1', 'fq::Fq', r'fq::Fq'), ('G2', 'ec::g2::G2', 'fq2::Fq2', r'fq2::Fq2')]:
         sites = []
-        ex = C.new_executor(ctx, euf_models(proj, sites), generics_hint={'map_to_curve': {'PtT': proj}, 'map2_to_curve': {'PtT': proj}},
+        ex = C.new_executor(ctx, euf_models(proj, sites, base), generics_hint={'map_to_curve': {'PtT': proj}, 'map2_to_curve': {'PtT': proj}},
                             assoc_types={'<%s as CurveProjective>::Base' % proj: base})
         u0, u1 = z3.Const('u0', Fld), z3.Const('u1', Fld)
         st = State()
@@ -93,15 +122,17 @@ def run(ctx):
         r0, r1 = ex.alloc(st, GE(base, [u0])), ex.alloc(st, GE(base, [u1]))
         res2 = ex.call(st, '<%s as map_to_curve::MapToCurve<%s>>::map2_to_curve' % (proj, proj), [r0, r1])
         s0, s1 = f_sswu(u0), f_sswu(u1)
-        hom = f_iso(f_addEp(s0, s1)) == f_addE(f_iso(s0), f_iso(s1))       # C16, instantiated at this call
+        hom = z3.And(f_iso(f_addEp(s0, s1)) == f_addE(f_iso(s0), f_iso(s1)),        # C16 (homomorphism), instantiated at this call
+                     f_dblE(f_iso(s0)) == f_addE(f_iso(s0), f_iso(s0)), f_dblE(f_iso(s1)) == f_addE(f_iso(s1), f_iso(s1)),      # C01: doubling on E = P + P
+                     f_iso(f_dblEp(s0)) == f_addE(f_iso(s0), f_iso(s0)), f_iso(f_dblEp(s1)) == f_addE(f_iso(s1), f_iso(s1)))
         chk.must_unsat('%s: map2_to_curve(u0,u1) = clear_h(iso(sswu(u0)) + iso(sswu(u1))) modulo iso homomorphism' % gname,
                        z3.And(hom, res2.c[0] != f_clr(f_addE(f_iso(s0), f_iso(s1)))), group='composition')
         chk.must_sat('%s: composition obligation is not vacuous' % gname, z3.And(hom, res2.c[0] == f_clr(f_addE(f_iso(s0), f_iso(s1)))))
-        bad = [s for s in sites if s[0] != 'add']
-        for b in bad:
+        for b in [x for x in sites if x[0] not in ('add', 'double')]:
             findings.append((gname, 'typing', b[0]))
-        adds = [s for s in sites[n1:] if s[0] == 'add']
-        chk.extra[gname + '_add_call_sites'] = [{'curve': s[1], 'lhs': str(s[2]), 'rhs': str(s[3])} for s in adds]
+        adds = [s for s in sites[n1:] if s[0] in ('add', 'double')]
+        bad = [s for s in sites if s[0] not in ('add', 'double')]
+        chk.extra[gname + '_group_op_call_sites'] = [{'op': s[0], 'curve': s[1], 'lhs': str(s[2]), 'rhs': str(s[3]), 'path_condition': str(s[4])[:120]} for s in adds]
         chk.panic_obligations(ex, gname + '.map_to_curve')
         chk.add_executor(ex)
         # ---- validity of add_assign on a curve with coefficient a  (real MIR, ring domain)
@@ -136,15 +167,20 @@ def run(ctx):
         cz = 2 * Z1.e * Z2.e * H
         chk.must_unsat('%s.add_assign chord branch = add-2007-bl (no dependence on a)' % gname,
                        z3.And(chord, z3.Or(X3 != cx, Y3 != cy, Z3 != cz)), group='add-validity')
-        on_Eiso = [s for s in adds if s[1] == 'Eiso']
-        key = 'map2_to_curve:add-on-isogenous-curve:equal-operands:' + gname
+        on_Eiso = [s_ for s_ in adds if s_[1] == 'Eiso']
+        key = 'map2_to_curve:group-op-on-isogenous-curve:' + gname
         if on_Eiso:
-            # (iii) the call site adds on E' (a' != 0): the equal-operands branch must be the tangent law of *that* curve
-            name = '%s: add_assign call site in map2_to_curve is valid on the isogenous curve (a != 0) for equal operands' % gname
+            # (iii) a group operation on E' (a' != 0): add_assign's equal-operands branch / double() use the a = 0 doubling, which is
+            #       the tangent law only when a = 0 ...
+            name = '%s: add_assign/double on the isogenous curve (a != 0) is the tangent law for equal operands' % gname
             chk.must_unsat(name, z3.And(same_pt, a != 0, differs), group='add-validity-Eiso')
-            # and nothing makes the two operands distinct: sswu(u0) = sswu(u1) is satisfiable (u0 = u1)
-            chk.must_sat('%s: operands of that add can coincide (u0 = u1)' % gname, z3.And(s0 == s1, u0 == u1), group='add-validity-Eiso')
-            findings.append((gname, 'add-on-Eiso', name, key))
+            # ... so every such call site needs operands that are PROVABLY distinct under its path condition (SSWU is not injective:
+            #     distinct inputs may have equal images, so u0 != u1 proves nothing)
+            for k_, s_ in enumerate(on_Eiso):
+                pcs = z3.And(*[C.mk(p_) for p_ in s_[4]]) if s_[4] else z3.BoolVal(True)
+                chk.must_unsat('%s: operands of %s #%d on the isogenous curve are provably distinct under the path condition' % (gname, s_[0], k_),
+                               z3.And(pcs, s_[2] == s_[3]), group='add-validity-Eiso')
+            findings.append((gname, 'op-on-Eiso', name, key))
         chk.add_executor(exr)
     # ground: a' != 0 for both isogenous curves (read from the crate constants)
     ex0 = C.new_executor(ctx, [])
@@ -173,6 +209,36 @@ def run(ctx):
     w2 = (rnd.randrange(ref.Q), rnd.randrange(ref.Q))
     for (x, y) in [((5, 7), (5, 7)), (w, w), (w, ref.f2_neg(w)), ((0, 0), (0, 0)), (w, (0, 0)), (w, w2)]:
         pairs2.append((x, y))
+    # distinct inputs whose SSWU images coincide: x0(u) depends on u only through xi*u^2 via t^2 + t, so u1^2 = -1/xi - u0^2 with
+    # sgn0(u1) = sgn0(u0) gives the same x0 (images coincide when g(x0) is a square; both cases are replayed)
+    inv11 = pow(11, -1, ref.Q)
+    found = 0
+    for u0 in range(2, 200):
+        t = (-inv11 - u0 * u0) % ref.Q
+        r_ = ref.fq_sqrt(t)
+        if r_ is None:
+            continue
+        if (r_ & 1) != (u0 & 1):
+            r_ = ref.Q - r_
+        pairs1.append((u0, r_))
+        found += 1
+        if found == 4:
+            break
+    xi2inv = ref.f2_inv(ref.SSWU_Z2)
+    found = 0
+    for k_ in range(2, 200):
+        u0 = (k_, 7)
+        t = ref.f2_sub(ref.f2_neg(xi2inv), ref.f2_sqr(u0))
+        r_ = ref.f2_sqrt(t)
+        if r_ is None:
+            continue
+        sg = lambda z_: (z_[0] & 1) if z_[0] != 0 else (z_[1] & 1)
+        if sg(r_) != sg(u0):
+            r_ = ref.f2_neg(r_)
+        pairs2.append((u0, r_))
+        found += 1
+        if found == 4:
+            break
     cmds = ['g1_map2 %x %x' % p for p in pairs1] + ['g2_map2 %x %x %x %x' % (p[0][0], p[0][1], p[1][0], p[1][1]) for p in pairs2]
     native_fail = {}
     for profile in ('dev', 'release'):
@@ -191,31 +257,26 @@ def run(ctx):
     for o in chk.failed():
         if o.group == 'add-validity-Eiso':
             gname = o.name[:2]
-            key = 'map2_to_curve:add-on-isogenous-curve:equal-operands:' + gname
-            # the solver's model is a Jacobian triple + a != 0 where the a = 0 doubling is not the tangent law; the
-            # concrete trigger through the public API is u0 = u1
+            key = 'map2_to_curve:group-op-on-isogenous-curve:' + gname
+            # the solver shows that an addition / doubling on E' can meet equal operands where the a = 0 doubling is not the group law;
+            # concrete triggers through the public API: equal inputs, or distinct inputs with coinciding SSWU images
             trig = [c for c in native_fail if c.startswith(gname.lower() + '_map2')]
-            eq_trig = [c for c in trig if _equal_args(c)]
-            if eq_trig:
+            if trig:
                 o.handled = True
-                ctx.violation(key, '%s map2_to_curve(u,u): addition on the isogenous curve (a != 0) falls into the a = 0 doubling; '
-                              'result is off-curve / not in the subgroup (release) or debug_assert panics (dev)' % gname,
-                              {'solver_model': o.model, 'native': {c: native_fail[c] for c in eq_trig},
-                               'replay_cmd': 'build /verif/replay against /repo and feed: ' + eq_trig[0]})
+                ctx.violation(key, '%s map2_to_curve: a group operation on the isogenous curve (a != 0) falls into the a = 0 doubling for operands that are '
+                              'not provably distinct; result off-curve / not in the subgroup (release) or debug_assert panics (dev)' % gname,
+                              {'solver_model': o.model, 'obligation': o.name, 'native': {c: native_fail[c] for c in trig[:4]},
+                               'replay_cmd': 'build /verif/replay against /repo and feed: ' + trig[0]})
             else:
-                ctx.inconclusive('solver reports the E\' addition invalid for equal operands but map2_to_curve(u,u) behaves natively: encoder/model mismatch')
+                ctx.inconclusive('solver reports an E\' group operation whose operands may coincide, but no native trigger was found: encoder/model mismatch or unreachable')
         elif o.group in ('composition', 'add-validity', 'no-panic'):
             o.handled = True
             ctx.violation('map_to_curve:' + o.name[:60], 'map_to_curve composition/validity obligation fails: ' + o.name,
                           {'obligation': o.name, 'model': o.model})
     # native failures not explained by a solver finding are violations in their own right
-    explained = set()
-    for v_ in chk.violations:
-        pass
     for c, res in native_fail.items():
         gname = c[:2].upper()
-        key = 'map2_to_curve:add-on-isogenous-curve:equal-operands:' + gname
-        if _equal_args(c) and any(o.group == 'add-validity-Eiso' and o.name.startswith(gname) and o.result == 'sat' for o in chk.obs):
+        if any(o.group == 'add-validity-Eiso' and o.name.startswith(gname) and o.result == 'sat' for o in chk.obs):
             continue
         ctx.violation('map2_to_curve:native:' + c[:40], 'native run disagrees with RFC composition: %s -> %s' % (c, res), {'cmd': c, 'result': res})
     for g in chk.grounds:
